@@ -189,3 +189,11 @@ Require Copia.Proofs.TiePlan.
 Theorem C19_model_is_translation_of_source : TiePlan.plan_model_is_translation.
 Proof. exact TiePlan.plan_model_is_translation_holds. Qed.
 Print Assumptions C19_model_is_translation_of_source.
+
+(** Every pattern of the list counts: the plan depends on the --exclude list only as a SET of patterns - order, repetitions
+    and any re-arrangement that keeps the same patterns leave transfer, skipped and delete unchanged (so nothing may drop a
+    pattern because another one seems to cover it, unless it is the same pattern). *)
+Theorem C19_plan_depends_on_the_set_of_patterns : forall (src dst : metamap) (ex1 ex2 : list (list Z)) (del : bool),
+  (forall p, In p ex1 <-> In p ex2) -> build_plan src dst ex1 del = build_plan src dst ex2 del.
+Proof. exact PlanProofs.build_plan_same_set. Qed.
+Print Assumptions C19_plan_depends_on_the_set_of_patterns.
